@@ -105,10 +105,12 @@ m("o08-onshutdown-twice", "C06", "shutdown-twice", ("engine_unix.go",
 
 	// Notify all event-loops to exit."""))
 m("o09-duplistener-hands-out-the-listener", "C07", "C07/", ("listener_unix.go",
-  """func (ln *listener) dup() (int, error) {
+  """		return -1, errorx.ErrEngineInShutdown
+	}
 	return socket.Dup(ln.fd)
 }""",
-  """func (ln *listener) dup() (int, error) {
+  """		return -1, errorx.ErrEngineInShutdown
+	}
 	return ln.fd, nil
 }"""))
 m("o10-registered-on-loop-zero", "C05", "C05/", ("acceptor_unix.go",
@@ -283,6 +285,26 @@ m("o25-one-byte-datagram-delivered-twice", "C08", "traffic-without-datagram", (E
 m("o26-eventloop-enroll-goes-through-the-balancer", "C05", "enrolled-on-other-loop", (EL,
   """	return el.enroll(c, c.RemoteAddr(), FromContext(ctx))""",
   """	return el.engine.eventLoops.next(c.RemoteAddr()).enroll(c, c.RemoteAddr(), FromContext(ctx))"""))
+
+m("o27-shutdown-from-a-later-tick-ignored", "C06", "hang", (EL,
+  """		case Shutdown:
+			// It seems reasonable to mark this as low-priority, waiting for some tasks like asynchronous writes
+			// to finish up before shutting down the service.
+			err := el.poller.Trigger(""",
+  """		case Shutdown:
+			if timer != nil {
+				break
+			}
+			// It seems reasonable to mark this as low-priority, waiting for some tasks like asynchronous writes
+			// to finish up before shutting down the service.
+			err := el.poller.Trigger("""))
+m("o28-udp-open-reply-truncated", "C08", "client-open-reply", (CU,
+  """	if c.isDatagram && c.remote == nil {
+		return unix.Send(c.fd, buf, 0)
+	}""",
+  """	if c.isDatagram && c.remote == nil {
+		return unix.Send(c.fd, buf[:len(buf)-1], 0)
+	}"""))
 
 
 def main():
